@@ -110,7 +110,7 @@ def gen_partition_calls(rng, S):
 def _adapt_scen_op(rng, tgt, labels, int_labels, positions, amb):
     labs = [labels[p] for p in positions]
     how = rng.randrange(3)
-    if how == 0 and amb and (int_labels or rng.random() < 0.04):
+    if how == 0 and amb:
         sc = labs if len(labs) > 1 or rng.random() < 0.5 else labs[0]
         if int_labels:
             return {'op': 'adapt', 'tgt': tgt, 'to': {'fset': [amb, sc]}}
